@@ -52,10 +52,12 @@ pub mod valid {
                 _ => ()
             }
         }
-        // SAFETY: `bytes` here os obviously ASCII
         Ok(match crate::percent_decode(bytes) {
+            // SAFETY: `bytes` here is obviously ASCII
             Cow::Borrowed(b) => Cow::Borrowed(unsafe {std::str::from_utf8_unchecked(b)}),
-            Cow::Owned(b) => Cow::Owned(unsafe {String::from_utf8_unchecked(b)})
+            /* decoded bytes are arbitrary ( e.g. `%FF` ): they must be checked */
+            Cow::Owned(b) => Cow::Owned(String::from_utf8(b)
+                .map_err(|_| serde::de::Error::custom("invalid Cookie value: not UTF-8"))?)
         })
     }
 }
@@ -504,7 +506,7 @@ const _: () = {
         fn variant_seed<V>(self, seed: V) -> Result<(V::Value, Self::Variant), Self::Error>
         where V: serde::de::DeserializeSeed<'de> {
             Ok((
-                seed.deserialize(self.de.next_section().unwrap().into_deserializer())?,
+                seed.deserialize(self.de.next_section()?.into_deserializer())?,
                 self,
             ))
         }
